@@ -144,6 +144,26 @@ def run(tier: str) -> int:
                                     configs=profiles.amr_configs(ams=((1, 'r'), (1, 'o')), unwinds=(1,)),
                                     ctx_names=['top', 'sor-first', 'seq-tail', 'in-tcrf']),
     ]
+    # the same through coverage<>() (state_control<> around the control): the exception that reaches the caller is still the parse_error
+    from .diffrun import Config
+    from .engine import Profile
+    from .gram import Grammar, P, C
+
+    def cov_grams(rng, tier):
+        g = Grammar('covraise0')
+        a_, b_, c_ = (lambda: P('one', C(97))), (lambda: P('one', C(98))), (lambda: P('one', C(99)))
+        rs = [P('sor', a_(), P('raise', b_())),
+              P('seq', a_(), P('raise', c_())),
+              P('seq', P('opt', a_()), P('sor', b_(), P('raise_message', C(109), C(115), C(103)))),
+              P('sor', P('try_catch_return_false', P('seq', a_(), P('raise', b_()))), P('any')),
+              P('try_catch_raise_nested', P('seq', a_(), P('raise', b_()))),
+              P('seq', P('at', P('sor', a_(), P('raise', c_()))), P('must', a_(), b_())),
+              P('star', P('sor', P('seq', a_(), b_()), P('seq', c_(), P('raise', a_()))))]
+        roots = [g.rule(t).id for t in rs]
+        g.resolve()
+        return [(g, roots, {'kind': 'raise-under-coverage'})]
+    ps.append(Profile('covraise', cov_grams, lambda g, root, tier: [Config(root, 1, 'o', 'lf_crlf', 0, uw, 0, 0, 0, 1) for uw in (1, 0)],
+                      profiles.inputs_exhaustive(4, 5, cap_q=200, cap_t=800), ORACLES, per_tu=1))
     from .c05_mustif import oracle_mustif
     ps.append(profiles.mustif_profile('mi', 14, 70, [('must_if', oracle_mustif), ('exception', oracle_exception)], per_tu=2))
     return engine.run_engine('C05', tier, ['PegtlVerif.Props.C05'], ps)
